@@ -26,6 +26,7 @@ import (
 type structEncoder struct {
 	fields   []FieldAccessor
 	metadata []byte
+	sync.RWMutex
 }
 
 func (valenc *structEncoder) Encode(enc *Encoder, v interface{}) {
@@ -33,7 +34,11 @@ func (valenc *structEncoder) Encode(enc *Encoder, v interface{}) {
 }
 
 func (valenc *structEncoder) Write(enc *Encoder, v interface{}) {
+	// the encoder is published before its fields are computed (recursive types need
+	// that); wait until the goroutine that is building it has finished.
+	valenc.RLock()
 	fields := valenc.fields
+	valenc.RUnlock()
 	n := len(fields)
 	t := reflect.TypeOf(v)
 	st := t
@@ -84,6 +89,8 @@ func getNamedStructEncoder(t reflect.Type) ValueEncoder {
 
 func newNamedStructEncoder(t reflect.Type, name string, tag ...string) *structEncoder {
 	encoder := &structEncoder{}
+	encoder.Lock()
+	defer encoder.Unlock()
 	registerNamedStructEncoder(t, encoder)
 	fields := getFields(t, tag...)
 	n := len(fields)
